@@ -46,11 +46,51 @@ def universe(tier):
     return nodes
 
 
+def _canon(v):
+    """type-tagged canonical form: equal values of different types stay different, dict / set order does not matter"""
+    if isinstance(v, dict):
+        return ("dict", tuple(sorted(((_canon(k), _canon(x)) for k, x in v.items()), key=repr)))
+    if isinstance(v, (set, frozenset)):
+        return (type(v).__name__, tuple(sorted((_canon(x) for x in v), key=repr)))
+    if isinstance(v, (list, tuple)):
+        return (type(v).__name__, tuple(_canon(x) for x in v))
+    return (type(v).__name__, repr(v))
+
+
 def evaluate(n):
     try:
-        return ("ok", n(dict(VALUES)) if n.dependencies else n({}))
+        # repr: 1, True and 1.0 (0.0 and -0.0) are different values although Python's == identifies them
+        return ("ok", _canon(n(dict(VALUES)) if n.dependencies else n({})))
     except Exception as e:  # noqa
         return ("exc", type(e).__name__)
+
+
+def _delta(x):
+    return x - 10
+
+
+def _delta_clipped(x):
+    return max(x - 10, 0)
+
+
+# a second function object that claims the importable name of the first (what functools.wraps or a rebound `def` leaves behind)
+_delta_clipped.__name__ = _delta.__name__
+_delta_clipped.__qualname__ = _delta.__qualname__
+
+
+def typed_universe():
+    """Nodes that differ only in literals Python's == identifies (1 / True / 1.0, 0 / False / 0.0 / -0.0), as positional,
+    keyword and nested arguments, and nodes that differ only in the function object behind one importable name."""
+    from dask._task_spec import DataNode, Dict, List, Task, Tuple
+
+    lits = [1, True, 1.0, 0, False, 0.0, -0.0]
+    nodes = []
+    for v in lits:
+        nodes += [Task("k", _f, v), Task("k", _f, 2, v), Task("k", _f, y=v), Task("k", _f, List(v, 2)), Task("k", _f, Dict({"d": v})),
+                  Task("k", _f, Tuple(v)), List(v), Tuple(v, v), Dict({"d": v}), DataNode("k", v)]
+    for fn in (_delta, _delta_clipped):
+        nodes += [Task("k", fn, 3), Task("k", _f, fn), List(fn)]
+    return nodes
 
 
 def congruence_sweep(tier, seed=0):
@@ -76,6 +116,20 @@ def congruence_sweep(tier, seed=0):
             if nodes[i] == nodes[j]:
                 if vals[i] != vals[j]:
                     fails.append(rtc.Failure("GraphNode.__eq__", {"a": repr(nodes[i]), "b": repr(nodes[j])}, "ensures", "C11-equal-nodes-compute-equal-values", f"a == b but a -> {vals[i]!r}, b -> {vals[j]!r}"))
+    # literals that == identifies and functions sharing an importable name: all pairs
+    tn = typed_universe()
+    ttoks = [tokenize(n) for n in tn]
+    tvals = [evaluate(n) if not any(callable(a) for a in getattr(n, "args", ())) else ("fn", id(getattr(n, "args", (None,))[0])) for n in tn]
+    for i, j in itertools.combinations(range(len(tn)), 2):
+        if type(tn[i]) is not type(tn[j]):
+            continue
+        cases += 1
+        same_tok, eq = ttoks[i] == ttoks[j], tn[i] == tn[j]
+        if (same_tok or eq) and tvals[i] != tvals[j]:
+            fails.append(rtc.Failure("GraphNode.__eq__", {"a": repr(tn[i]), "b": repr(tn[j])}, "ensures", "C11-equal-nodes-compute-equal-values",
+                                     f"{'same token' if same_tok else 'a == b'}, but a evaluates to {tvals[i]!r} and b to {tvals[j]!r}"))
+        if eq and hash(tn[i]) != hash(tn[j]):
+            fails.append(rtc.Failure("GraphNode.__hash__", {"a": repr(tn[i]), "b": repr(tn[j])}, "ensures", "C11-equal-nodes-hash-equal", "a == b but their hashes differ"))
     # multi-step: tokenize first, then substitute a dependency, then compare with a freshly built node
     from dask._task_spec import Task, TaskRef
 
@@ -94,7 +148,7 @@ def congruence_sweep(tier, seed=0):
                 if (x == fresh) != (evaluate(x) == evaluate(fresh)) and evaluate(x) == evaluate(fresh):
                     fails.append(rtc.Failure("Task.substitute", {"func": fn.__name__, "swap": [ka, kb]}, "ensures", "C11-same-node-same-token", "substitute() result differs from an identical freshly built node"))
     return {"function": "dask/_task_spec.py: GraphNode.__eq__/__hash__/tokens vs __call__ (real code)", "bounded": True,
-            "bound": {"nodes": len(nodes), "universe": "Task(sub|f, args from refs/literals/List/Tuple/Set/Dict incl. permutations, key-like refs 1 vs '1', ('x',0) vs its str), kwargs, aliases, data nodes"},
+            "bound": {"nodes": len(nodes), "universe": "Task(sub|f, args from refs/literals/List/Tuple/Set/Dict incl. permutations, key-like refs 1 vs '1', ('x',0) vs its str), kwargs, aliases, data nodes; literals 1/True/1.0/0/False/0.0/-0.0 in every argument position; two functions sharing one importable name"},
             "cases": cases, "distinct_nontrivial": cases, "failures_found": len(fails), "wall_s": round(time.time() - t0, 2),
             "samples": [{"native_case": {"a": "List((1, 2))", "b": "List((2, 1))"}}], "failures": fails[:5]}
 
@@ -105,7 +159,7 @@ def _g(*args):
 
 
 def legacy_terms(depth):
-    atoms_ = ["x", ("t", 0), "y", 1, "lit", None]
+    atoms_ = ["x", ("t", 0), "y", 1, "lit", None, 7, 2.5]  # 7 and 2.5 are KEYS of the base graph (numeric keys), 1 is not
     if depth == 0:
         return atoms_
     sub = legacy_terms(depth - 1)
@@ -165,13 +219,28 @@ def _has_dict_ref(t, keys):
     return walk(t, False)
 
 
+def _scribble(v):
+    """edit every mutable container reachable from v in place"""
+    if isinstance(v, list):
+        for x in v:
+            _scribble(x)
+        v.append("scribble")
+    # dicts are left alone: a dict literal is handed out as it is (no elementwise rebuild) -- the same root cause as the
+    # recorded finding C08-dict-values-not-evaluated, not reported a second time
+    elif isinstance(v, set):
+        v.add("scribble")
+    elif isinstance(v, tuple):
+        for x in v:
+            _scribble(x)
+
+
 def legacy_sweep(tier, seed=0):
     from dask._task_spec import GraphNode, convert_legacy_graph
     from dask.local import get_sync
 
     t0 = time.time()
-    base = {"x": 1, ("t", 0): 10, "y": (_f, "x")}
-    env = {"x": 1, ("t", 0): 10, "y": _f(1)}
+    base = {"x": 1, ("t", 0): 10, "y": (_f, "x"), 7: 70, 2.5: 25}
+    env = {"x": 1, ("t", 0): 10, "y": _f(1), 7: 70, 2.5: 25}
     keys = set(base) | {"w"}
     cases, fails = 0, []
     for term in legacy_terms(2 if tier != "quick" else 2):
@@ -187,12 +256,19 @@ def legacy_sweep(tier, seed=0):
                 msg = f"converted graph computes {got!r}, legacy semantics give {want!r}"
             elif deps != used:
                 msg = f"node reports dependencies {sorted(map(repr, deps))}, the term references {sorted(map(repr, used))}"
+            else:
+                # elementwise evaluation builds NEW containers: editing a returned value must not change what the
+                # same graph computes next time
+                _scribble(got)
+                again = get_sync(dsk, "w")
+                if again != want:  # `want` was built from fresh containers before the edit
+                    msg = f"after editing the returned value in place, the same graph computes {again!r} instead of {want!r} (a literal container of the graph was handed out)"
         except Exception as e:  # noqa
             msg = f"{type(e).__name__}: {e}"
         if msg:
             fails.append(rtc.Failure("convert_legacy_task", {"term": repr(term), "dict_with_reference": _has_dict_ref(term, keys - {"w"})}, "ensures", "C08-legacy-meaning-preserved", msg))
     return {"function": "dask/_task_spec.py:convert_legacy_graph + execution (real code) vs reference legacy interpreter", "bounded": True,
-            "bound": {"term depth": 2, "alphabet": "keys x, ('t',0), y; functions f, g; literals 1, 'lit', None; lists, non-call tuples, dict arguments"},
+            "bound": {"term depth": 2, "alphabet": "keys x, ('t',0), y, 7, 2.5 (numeric keys); functions f, g; literals 1, 'lit', None; lists, non-call tuples, dict arguments; each graph run again after the returned value was edited in place"},
             "cases": cases, "distinct_nontrivial": cases, "failures_found": len(fails), "wall_s": round(time.time() - t0, 2),
             "samples": [{"native_case": {"term": "(f, ['x', ('t', 0)])"}}], "failures": fails[:400]}
 
